@@ -524,7 +524,7 @@ func evalPair(c *lib.Ctx, in Input, asCase bool) {
 }
 
 func main() {
-	cli.InitLogging(cli.MinVerbosity) // CanSee logs every refusal; keep stderr quiet
+	cli.InitLogging(cli.MinVerbosity - 1) // CRITICAL only: CanSee logs every experimental refusal at ERROR level
 	lib.Main("C33", func(c *lib.Ctx) {
 		c.Model("From PlzV Require Import Model.C33.", "C33.case", "C33.check")
 		c.Rule("seeded random graphs of 3-6 targets over a package pool with shared textual prefixes (p, pf, pfoo, p/q, p/qq, p/q/r, experimental, experimentalx, exp, ...), " +
@@ -545,6 +545,11 @@ func main() {
 			return
 		}
 
+		// --- 0. fixed corpus: the minimal witnesses of the known classes first (so that they are the
+		// ones reported), then the examples of build_target_test.go and the shared-prefix boundary
+		for _, in := range corpus() {
+			evalCheck(c, in, true)
+		}
 		// --- 1. whole checks
 		nCase, nEval := c.Scale(900, 12000), c.Scale(6000, 200000)
 		for i := 0; i < nCase+nEval; i++ {
@@ -592,4 +597,62 @@ func main() {
 		sort.Strings(keys)
 		c.Note("%d experimental-dir configurations; checks and pairs beyond the first batch are oracle-only evaluations on the implementation", len(keys))
 	})
+}
+
+func lbl(x string) L {
+	// "sub|pkg|name"
+	p := strings.SplitN(x, "|", 3)
+	return L{Sub: p[0], Pkg: p[1], Name: p[2]}
+}
+
+func tgt(label string, vis []string, test, testOnly bool, deps ...string) T {
+	t := T{Label: lbl(label), Test: test, TestOnly: testOnly, Vis: []L{}}
+	for _, v := range vis {
+		t.Vis = append(t.Vis, lbl(v))
+	}
+	for _, d := range deps {
+		t.Deps = append(t.Deps, lbl(d))
+	}
+	return t
+}
+
+func one(exp []string, t T, g ...T) Input { return Input{Kind: "check", Exp: exp, Graph: g, Target: &t} }
+
+func corpus() []Input {
+	pub := []string{"||..."}
+	return []Input{
+		// minimal witnesses of the three known classes (reproduced end to end with plz build as well)
+		one(nil, tgt("s|p|y", nil, false, false, "|p|priv"), tgt("|p|priv", nil, false, false)),
+		one(nil, tgt("s|q|z", nil, false, false, "|p|vis"), tgt("|p|vis", []string{"|q|..."}, false, false)),
+		one([]string{"experimental"}, tgt("|experimental/u|x", nil, false, false, "|lib|t"), tgt("|lib|t", pub, false, true)),
+		// their legal / illegal neighbours
+		one(nil, tgt("s|q|w", nil, false, false, "|p|priv"), tgt("|p|priv", nil, false, false)),
+		one([]string{"experimental"}, tgt("|prod|x", nil, false, false, "|lib|t"), tgt("|lib|t", pub, false, true)),
+		one([]string{"experimental"}, tgt("|prod|x_test", nil, true, false, "|lib|t"), tgt("|lib|t", pub, false, true)),
+		one([]string{"experimental"}, tgt("|prod|testlib", nil, false, true, "|lib|t"), tgt("|lib|t", pub, false, true)),
+		// build_target_test.go
+		one(nil, tgt("|src/test/python|lib3", nil, false, false, "|src/build/python|lib2"), tgt("|src/build/python|lib2", pub, false, false)),
+		one(nil, tgt("|src/test/python|lib3", nil, false, false, "|src/build/python|lib1"), tgt("|src/build/python|lib1", nil, false, false)),
+		one(nil, tgt("|src/build/python|lib2", nil, false, false, "|src/build/python|lib1"), tgt("|src/build/python|lib1", nil, false, false)),
+		one(nil, tgt("|src/test/python/moar|lib4", nil, false, false, "|src/test/python|lib3"), tgt("|src/test/python|lib3", []string{"|src/test|..."}, false, false)),
+		one(nil, tgt("|src/build/python|lib1", nil, false, false, "|src/test/python|lib3"), tgt("|src/test/python|lib3", []string{"|src/test|..."}, false, false)),
+		one(nil, tgt("|src/test/python|_test5#pex", nil, false, false, "|src/build/python|lib5"), tgt("|src/build/python|lib5", []string{"|src/test/python|test5"}, false, false)),
+		one(nil, tgt("|src/build/python|lib5", nil, false, false, "|src/test/python|_test5#pex"), tgt("|src/test/python|_test5#pex", nil, false, false)),
+		one([]string{"experimental"}, tgt("|experimental/user|target2", nil, false, false, "|src/core|target1"), tgt("|src/core|target1", nil, false, false)),
+		one([]string{"experimental"}, tgt("|src/core|target1", nil, false, false, "|experimental/user|target2"), tgt("|experimental/user|target2", pub, false, false)),
+		// shared textual prefixes: pfoo is not beneath p, experimentalx is not experimental
+		one(nil, tgt("|pfoo|x", nil, false, false, "|lib|l"), tgt("|lib|l", []string{"|p|..."}, false, false)),
+		one(nil, tgt("|p/q|x", nil, false, false, "|lib|l"), tgt("|lib|l", []string{"|p|..."}, false, false)),
+		one(nil, tgt("|p|x", nil, false, false, "|lib|l"), tgt("|lib|l", []string{"|p|..."}, false, false)),
+		one(nil, tgt("|p/q|x", nil, false, false, "|lib|l"), tgt("|lib|l", []string{"|p|all"}, false, false)),
+		one([]string{"experimental"}, tgt("|experimentalx|x", nil, false, false, "|lib|l"), tgt("|lib|l", nil, false, false)),
+		one([]string{"experimental"}, tgt("|lib|l", nil, false, false, "|experimentalx|x"), tgt("|experimentalx|x", pub, false, false)),
+		one([]string{"experimental"}, tgt("s|experimental|x", nil, false, false, "|lib|l"), tgt("|lib|l", nil, false, false)),
+		// hidden children: the owner is what a pattern has to name; the first failing dependency is reported
+		one(nil, tgt("|a|_x#tag_b", nil, false, false, "|lib|l"), tgt("|lib|l", []string{"|a|x"}, false, false)),
+		one(nil, tgt("|a|_x#tag_b", nil, false, false, "|lib|l"), tgt("|lib|l", []string{"|a|_x#tag_b"}, false, false)),
+		one(nil, tgt("|a|__x#t", nil, false, false, "|lib|l"), tgt("|lib|l", []string{"|a|_x"}, false, false)),
+		one(nil, tgt("|a|x", nil, false, false, "|lib|ok", "|lib|t", "|b|hidden"), tgt("|lib|ok", pub, false, false), tgt("|lib|t", pub, false, true), tgt("|b|hidden", nil, false, false)),
+		one(nil, tgt("|a|x", nil, false, false, "|lib|ok", "|b|hidden", "|lib|t"), tgt("|lib|ok", pub, false, false), tgt("|lib|t", pub, false, true), tgt("|b|hidden", nil, false, false)),
+	}
 }
